@@ -26,8 +26,8 @@ TIERS = {
         "thorough": {"runs": 16000, "budget_s": 540, "min_budget": 300},
     },
     "history": {
-        "quick": {"runs": 200, "budget_s": 60, "min_budget": 150},
-        "thorough": {"runs": 6000, "budget_s": 480, "min_budget": 300},
+        "quick": {"runs": 160, "budget_s": 40, "min_budget": 150},
+        "thorough": {"runs": 6000, "budget_s": 420, "min_budget": 300},
     },
     "derived": {
         "quick": {"runs": 480, "budget_s": 80, "min_budget": 150},
